@@ -324,3 +324,45 @@ def result_test_blocks(f, g, call):
         if g.can_reach(g.pos[asg['id']], [cnd], avoid=writes) is not None:
             out.append(bid)
     return out
+
+
+def completion_closure_breaks(f):
+    """(loop, break) pairs: a loop that adds the `ancestors` of the members of a `completion` set and leaves at the first member.
+    Works on the engines (C++) and on the reconstructed C of the emitted step function."""
+    out, n_loops = [], 0
+    for lp in f.walk():
+        if lp['k'] not in ('ForStmt', 'WhileStmt', 'CXXForRangeStmt', 'DoStmt'):
+            continue
+        body = lp['c'][-1]
+        if body is None:
+            continue
+        adds = []
+        for n in sub(body):
+            names = [x['ref'].get('name') for x in sub(n) if x['k'] == 'MemberExpr']
+            is_add = (n['k'] in ('CompoundAssignOperator', 'CXXOperatorCallExpr', 'BinaryOperator') and n.get('op') == '|=') or (
+                n['k'] in ('CallExpr', 'CXXMemberCallExpr') and n.get('callee', {}).get('q', '').split('::')[-1] in ('bit_or', 'insert'))
+            if is_add and 'ancestors' in names:
+                adds.append(n)
+        if not adds:
+            continue
+        # the member test on `completion` that selects the element (in the loop header or an enclosing if inside the loop)
+        sel = False
+        for a_ in adds:
+            for anc in f.ancestors(a_):
+                if anc is lp:
+                    break
+                if anc['k'] == 'IfStmt' and any(x['k'] == 'MemberExpr' and x['ref'].get('name') == 'completion' for x in sub([c for c in anc['c'] if c is not None][0])):
+                    sel = True
+        hdr = [x for x in sub(lp) if x['id'] not in {y['id'] for y in sub(body)}]
+        if any(x['k'] == 'MemberExpr' and x['ref'].get('name') == 'completion' for x in hdr):
+            sel = True
+        if not sel:
+            continue
+        # nested loops own their breaks
+        inner_loops = [x for x in sub(body) if x['k'] in ('ForStmt', 'WhileStmt', 'CXXForRangeStmt', 'DoStmt', 'SwitchStmt')]
+        inner_ids = {y['id'] for il in inner_loops for y in sub(il)}
+        n_loops += 1
+        for n in sub(body):
+            if n['k'] == 'BreakStmt' and n['id'] not in inner_ids:
+                out.append((lp, n))
+    return out, n_loops
